@@ -327,13 +327,18 @@ package termincommittee
 //@   ensures [sound.proof] result == nil ==> ProofOK(tic, vcm.SignedHeader().PreparedProof(), tic.State.height, vcm.SignedHeader().View())
 //@   assert before call ValidatePreparedProof [committee-argument-is-term-committee] $committeeMembers == tic.committeeMembers && $keyManager == tic.keyManager
 
-// A-SORT + body: trusted until the sort.Slice ordering model lands (the comparator is read, not verified)
+// the vote with the highest prepared-proof view (sort.Slice is modelled by A-SORT: permutation, no inversion w.r.t. less)
+//@ pred HasProof(c *protocol.ViewChangeMessageContent) = c.SignedHeader().PreparedProof() != nil && len(c.SignedHeader().PreparedProof().Raw()) > 0
 //@ func (*TermInCommittee).latestViewChangeVote
-//@   trusted
-//@   ensures [none-has-proof] result == nil ==> (forall k :: 0 <= k && k < len(confirmations) ==> confirmations[k].SignedHeader().PreparedProof() == nil || len(confirmations[k].SignedHeader().PreparedProof().Raw()) == 0)
-//@   ensures [is-a-vote-with-proof] result != nil ==> (exists k :: 0 <= k && k < len(confirmations) && confirmations[k] == result) && result.SignedHeader().PreparedProof() != nil && len(result.SignedHeader().PreparedProof().Raw()) > 0
-//@   ensures [highest-proof-view] result != nil ==> (forall k :: 0 <= k && k < len(confirmations) && confirmations[k].SignedHeader().PreparedProof() != nil && len(confirmations[k].SignedHeader().PreparedProof().Raw()) > 0
+//@   props C07 C09
+//@   requires forall k :: 0 <= k && k < len(confirmations) ==> confirmations[k] != nil
+//@   ensures [none-has-proof] result == nil ==> (forall k :: 0 <= k && k < len(confirmations) ==> !HasProof(confirmations[k]))
+//@   ensures [is-a-vote-with-proof] result != nil ==> (exists k :: 0 <= k && k < len(confirmations) && confirmations[k] == result) && HasProof(result)
+//@   ensures [highest-proof-view] result != nil ==> (forall k :: 0 <= k && k < len(confirmations) && HasProof(confirmations[k])
 //@     | ==> confirmations[k].SignedHeader().PreparedProof().PreprepareBlockRef().View() <= result.SignedHeader().PreparedProof().PreprepareBlockRef().View())
+//@   loop range confirmations
+//@     invariant [res-are-votes-with-proof] !isnil(res) && len(res) <= $i && (forall p :: 0 <= p && p < len(res) ==> HasProof(res[p]) && (exists k :: 0 <= k && k < $i && confirmations[k] == res[p]))
+//@     invariant [every-vote-with-proof-is-in-res] forall k :: 0 <= k && k < $i && HasProof(confirmations[k]) ==> (exists p :: 0 <= p && p < len(res) && res[p] == confirmations[k])
 
 //@ func (*TermInCommittee).initView
 //@   props C07 C10 C13 C19
@@ -440,16 +445,6 @@ package termincommittee
 //@   requires [O7.6.votes-reach-quorum] exists ids []primitives.MemberId :: len(ids) == len(viewChangeMessages) && (forall k :: 0 <= k && k < len(viewChangeMessages) ==> ids[k] == viewChangeMessages[k].content.Sender().MemberId())
 //@     | && SW(ids, tic.committeeMembers, len(tic.committeeMembers)) >= Qz(SumMW(tic.committeeMembers, len(tic.committeeMembers)))
 //@   modifies @TIC
-
-// A-SORT + body: trusted until the sort.Slice ordering model lands. The block (and hash) of a vote that has a block
-// and whose proof view is maximal among the votes that have a block; (nil, nil) when no vote has a block.
-//@ dep blockextractor.GetLatestBlockFromViewChangeMessages
-//@   params messages
-//@   ensures [none] result0 == nil ==> (forall k :: 0 <= k && k < len(messages) ==> messages[k].block == nil)
-//@   ensures [chosen] result0 != nil ==> (exists k :: 0 <= k && k < len(messages) && messages[k].block == result0 && messages[k].block != nil
-//@     | && result1 == messages[k].content.SignedHeader().PreparedProof().PrepareBlockRef().BlockHash()
-//@     | && (forall j :: 0 <= j && j < len(messages) && messages[j].block != nil ==>
-//@     |      messages[j].content.SignedHeader().PreparedProof().PreprepareBlockRef().View() <= messages[k].content.SignedHeader().PreparedProof().PreprepareBlockRef().View()))
 
 // field-by-field re-encoding of the votes (verified under C20); here only: one confirmation per vote
 //@ dep interfaces.ExtractConfirmationsFromViewChangeMessages
